@@ -773,6 +773,26 @@ var letters = []letter{
 		m.bind("ga2", bind{"fn", "a", "getx"})
 		return "from a import getx as ga1, getx as ga2"
 	}},
+	{"from d import c, b as db2 (two file modules in one statement)", func(m *model, pos int) string {
+		m.load("d/c")
+		m.load("d/b")
+		m.bind("c", bind{"mod", "d/c", ""})
+		m.bind("db2", bind{"mod", "d/b", ""})
+		return "from d import c, b as db2"
+	}},
+	{"from d import b as db3, c as c3 (the same two, other order)", func(m *model, pos int) string {
+		m.load("d/b")
+		m.load("d/c")
+		m.bind("db3", bind{"mod", "d/b", ""})
+		m.bind("c3", bind{"mod", "d/c", ""})
+		return "from d import b as db3, c as c3"
+	}},
+	{"from d import c as c4, c as c5 (one file module under two aliases)", func(m *model, pos int) string {
+		m.load("d/c")
+		m.bind("c4", bind{"mod", "d/c", ""})
+		m.bind("c5", bind{"mod", "d/c", ""})
+		return "from d import c as c4, c as c5"
+	}},
 	{"from a import b as ab", func(m *model, pos int) string {
 		m.load("a")
 		m.bind("ab", bind{"mod", "b", ""})
